@@ -5,7 +5,7 @@
    are represented as the Go structs (emb_frame, emb_grouper: the representation). *)
 From QF Require Import Base.Prelude Gen.GenConsts Gen.GenTables Gen.GenFuncs Gen.GenFilterClause Gen.GenAggr.
 From QF Require Import Model.Frame Model.Filter Model.Ops Model.Aggregate Proofs.GenFilterClauseProofs Proofs.AggregateProofs.
-From QF Require Model.Sort Model.SortFrame Model.Grouper Proofs.SortKeyProofs.
+From QF Require Model.Sort Model.SortFrame Model.Grouper Proofs.SortKeyProofs Model.Bits Proofs.BitsProofs Proofs.GenFuncsProofs.
 Local Open Scope Z_scope.
 
 (* ------------------------------------------------------------------ outcome helpers *)
@@ -1700,3 +1700,474 @@ Lemma hash_input_total (nulleq : bool) (z : Z) (b : bool) (r : N) :
   Grouper.hash_input nulleq (Grouper.CInt z) <> None /\ Grouper.hash_input nulleq (Grouper.CBool b) <> None
   /\ Grouper.hash_input nulleq (Grouper.CEnum r) <> None.
 Proof. repeat split; discriminate. Qed.
+
+(* ---- internal/icolumn: Column.subset / Column.Subset: a fresh data array, the values at the positions in index order *)
+Lemma ga_icolumn_subset_loop_fill (c : ga_icolumn_Column) (l : list Z) : forall k res,
+  ga_icolumn_Column_subset_loop1 l k c res = gap_fill (ga_index (ga_icolumn_Column_data c)) l k res.
+Proof.
+  induction l as [|x l IH]; intros k res; cbn [ga_icolumn_Column_subset_loop1 gap_fill]; [reflexivity|].
+  destruct (ga_index (ga_icolumn_Column_data c) x); cbn [obind]; [|reflexivity|reflexivity].
+  destruct (ga_update res k a); cbn [obind]; [apply IH|reflexivity|reflexivity].
+Qed.
+
+Lemma ga_icolumn_subset_eq (d : list Z) (ix : list nat) :
+  ga_icolumn_Column_subset (ga_mk_icolumn_Column d) (ints ix) = omap1 ga_mk_icolumn_Column (omap (idx d) ix).
+Proof.
+  unfold ga_icolumn_Column_subset. unfold ints at 1 2. rewrite map_length, gap_make. cbn [obind].
+  rewrite ga_icolumn_subset_loop_fill. fold (ints ix). rewrite <- (map_length Z.of_nat ix) at 1. fold (ints ix).
+  rewrite gap_fill_all. cbn [ga_icolumn_Column_data]. rewrite ga_index_ints.
+  destruct (omap (idx d) ix); reflexivity.
+Qed.
+
+Lemma ga_icolumn_Subset_eq (d : list Z) (ix : list nat) :
+  ga_icolumn_Column_Subset ICol (ga_mk_icolumn_Column d) (ints ix) = m_col_Subset (ICol d) (ints ix).
+Proof.
+  unfold ga_icolumn_Column_Subset. rewrite ga_icolumn_subset_eq, m_col_Subset_ints. cbn [col_subset].
+  destruct (omap (idx d) ix); reflexivity.
+Qed.
+
+(* ---- internal/fcolumn: Column.subset / Column.Subset: a fresh data array, the values at the positions in index order *)
+Lemma ga_fcolumn_subset_loop_fill (c : ga_fcolumn_Column) (l : list Z) : forall k res,
+  ga_fcolumn_Column_subset_loop1 l k c res = gap_fill (ga_index (ga_fcolumn_Column_data c)) l k res.
+Proof.
+  induction l as [|x l IH]; intros k res; cbn [ga_fcolumn_Column_subset_loop1 gap_fill]; [reflexivity|].
+  destruct (ga_index (ga_fcolumn_Column_data c) x); cbn [obind]; [|reflexivity|reflexivity].
+  destruct (ga_update res k a); cbn [obind]; [apply IH|reflexivity|reflexivity].
+Qed.
+
+Lemma ga_fcolumn_subset_eq (fz : N) (d : list N) (ix : list nat) :
+  ga_fcolumn_Column_subset fz (ga_mk_fcolumn_Column d) (ints ix) = omap1 ga_mk_fcolumn_Column (omap (idx d) ix).
+Proof.
+  unfold ga_fcolumn_Column_subset. unfold ints at 1 2. rewrite map_length, gap_make. cbn [obind].
+  rewrite ga_fcolumn_subset_loop_fill. fold (ints ix). rewrite <- (map_length Z.of_nat ix) at 1. fold (ints ix).
+  rewrite gap_fill_all. cbn [ga_fcolumn_Column_data]. rewrite ga_index_ints.
+  destruct (omap (idx d) ix); reflexivity.
+Qed.
+
+Lemma ga_fcolumn_Subset_eq (fz : N) (d : list N) (ix : list nat) :
+  ga_fcolumn_Column_Subset FCol fz (ga_mk_fcolumn_Column d) (ints ix) = m_col_Subset (FCol d) (ints ix).
+Proof.
+  unfold ga_fcolumn_Column_Subset. rewrite ga_fcolumn_subset_eq, m_col_Subset_ints. cbn [col_subset].
+  destruct (omap (idx d) ix); reflexivity.
+Qed.
+
+(* ---- internal/bcolumn: Column.subset / Column.Subset: a fresh data array, the values at the positions in index order *)
+Lemma ga_bcolumn_subset_loop_fill (c : ga_bcolumn_Column) (l : list Z) : forall k res,
+  ga_bcolumn_Column_subset_loop1 l k c res = gap_fill (ga_index (ga_bcolumn_Column_data c)) l k res.
+Proof.
+  induction l as [|x l IH]; intros k res; cbn [ga_bcolumn_Column_subset_loop1 gap_fill]; [reflexivity|].
+  destruct (ga_index (ga_bcolumn_Column_data c) x); cbn [obind]; [|reflexivity|reflexivity].
+  destruct (ga_update res k a); cbn [obind]; [apply IH|reflexivity|reflexivity].
+Qed.
+
+Lemma ga_bcolumn_subset_eq (d : list bool) (ix : list nat) :
+  ga_bcolumn_Column_subset (ga_mk_bcolumn_Column d) (ints ix) = omap1 ga_mk_bcolumn_Column (omap (idx d) ix).
+Proof.
+  unfold ga_bcolumn_Column_subset. unfold ints at 1 2. rewrite map_length, gap_make. cbn [obind].
+  rewrite ga_bcolumn_subset_loop_fill. fold (ints ix). rewrite <- (map_length Z.of_nat ix) at 1. fold (ints ix).
+  rewrite gap_fill_all. cbn [ga_bcolumn_Column_data]. rewrite ga_index_ints.
+  destruct (omap (idx d) ix); reflexivity.
+Qed.
+
+Lemma ga_bcolumn_Subset_eq (d : list bool) (ix : list nat) :
+  ga_bcolumn_Column_Subset BCol (ga_mk_bcolumn_Column d) (ints ix) = m_col_Subset (BCol d) (ints ix).
+Proof.
+  unfold ga_bcolumn_Column_Subset. rewrite ga_bcolumn_subset_eq, m_col_Subset_ints. cbn [col_subset].
+  destruct (omap (idx d) ix); reflexivity.
+Qed.
+
+(* ---- internal/ecolumn: subset keeps the value table and does not copy the strict flag *)
+Lemma ga_ecolumn_subset_loop_eq (c : ga_ecolumn_Column) (l : list Z) : forall data,
+  ga_ecolumn_Column_subset_loop1 l c data = omap1 (app data) (omap (ga_index (ga_ecolumn_Column_data c)) l).
+Proof.
+  induction l as [|i l IH]; intro data; cbn [ga_ecolumn_Column_subset_loop1 omap omap1].
+  - now rewrite app_nil_r.
+  - destruct (ga_index (ga_ecolumn_Column_data c) i) as [v| |]; cbn [obind]; [|reflexivity|reflexivity].
+    rewrite IH. destruct (omap (ga_index (ga_ecolumn_Column_data c)) l); cbn [omap1 obind]; [|reflexivity|reflexivity].
+    now rewrite <- app_assoc.
+Qed.
+
+Lemma omap_idx_map {A B} (f : A -> B) (d : list A) (ix : list nat) :
+  omap (idx (map f d)) ix = omap1 (map f) (omap (idx d) ix).
+Proof.
+  induction ix as [|p ix IH]; cbn [omap omap1 map]; [reflexivity|]. rewrite idx_map, IH.
+  destruct (idx d p); cbn [omap1 obind]; [|reflexivity|reflexivity]. destruct (omap (idx d) ix); reflexivity.
+Qed.
+
+Lemma ga_ecolumn_subset_eq (d : list N) (values : list bytes) (strict : bool) (ix : list nat) :
+  ga_ecolumn_Column_subset (emb_ecol d values strict) (ints ix)
+  = omap1 (fun r => emb_ecol r values false) (omap (idx d) ix).
+Proof.
+  unfold ga_ecolumn_Column_subset. rewrite gap_make0 by lia. cbn [obind]. rewrite ga_ecolumn_subset_loop_eq.
+  cbn [emb_ecol ga_ecolumn_Column_data ga_ecolumn_Column_values]. rewrite ga_index_ints, omap_idx_map.
+  destruct (omap (idx d) ix); reflexivity.
+Qed.
+
+(* ------------------------------------------------------------------ scolumn.New: the layout it builds *)
+
+Definition str_bytes (o : option bytes) : bytes := match o with Some s => s | None => [] end.
+Definition bytes_of (strs : list (option bytes)) : bytes := concat (map str_bytes strs).
+(* one pointer per string: the running offset, the length (0 for nil), the null bit *)
+Fixpoint layout (strs : list (option bytes)) (off : Z) : list Z :=
+  match strs with
+  | [] => []
+  | None :: r => gf_strings_NewPointer off 0 true :: layout r off
+  | Some s :: r => gf_strings_NewPointer off (Z.of_nat (length s)) false :: layout r (off + Z.of_nat (length s))
+  end.
+
+Lemma layout_length strs : forall off, length (layout strs off) = length strs.
+Proof. induction strs as [|[s|] r IH]; intro off; cbn [layout length]; [reflexivity| |]; now rewrite IH. Qed.
+
+Lemma ga_New_loop_eq (l : list (option bytes)) : forall (pre rest : list Z) data off,
+  length rest = length l ->
+  ga_scolumn_New_loop1 l (Z.of_nat (length pre)) data (pre ++ rest) off
+  = Ok (data ++ bytes_of l, pre ++ layout l off, off + Z.of_nat (length (bytes_of l))).
+Proof.
+  induction l as [|[s|] l IH]; intros pre rest data off Hlen.
+  - destruct rest; [|discriminate]. cbn [ga_scolumn_New_loop1 bytes_of map concat layout length Z.of_nat].
+    now rewrite !app_nil_r, Z.add_0_r.
+  - destruct rest as [|r0 rest]; [discriminate|]. cbn [ga_scolumn_New_loop1 ga_isnil ga_deref obind].
+    rewrite gap_update_mid. cbn [obind]. rewrite gap_succ.
+    replace (S (length pre)) with (length (pre ++ [gf_strings_NewPointer off (Z.of_nat (length s)) false]))
+      by (rewrite app_length; cbn; lia).
+    rewrite IH by (cbn in Hlen; lia). unfold bytes_of. cbn [map concat str_bytes layout].
+    rewrite <- !app_assoc, app_length. cbn [app]. f_equal. f_equal. lia.
+  - destruct rest as [|r0 rest]; [discriminate|]. cbn [ga_scolumn_New_loop1 ga_isnil obind].
+    rewrite gap_update_mid. cbn [obind]. rewrite gap_succ.
+    replace (S (length pre)) with (length (pre ++ [gf_strings_NewPointer off 0 true])) by (rewrite app_length; cbn; lia).
+    rewrite IH by (cbn in Hlen; lia). unfold bytes_of. cbn [map concat str_bytes layout app].
+    now rewrite <- !app_assoc.
+Qed.
+
+(* scolumn.New(strings): the pointers of the layout over the concatenated bytes — no premise *)
+Lemma ga_scolumn_New_eq (strs : list (option bytes)) :
+  ga_scolumn_New strs = Ok (ga_mk_scolumn_Column (layout strs 0) (bytes_of strs)).
+Proof.
+  unfold ga_scolumn_New. rewrite gap_make0 by lia. cbn [obind]. rewrite gap_make. cbn [obind].
+  pose proof (ga_New_loop_eq strs [] (repeat 0 (length strs)) [] 0 (repeat_length _ _)) as H.
+  cbn [length Z.of_nat app] in H. rewrite H. cbn [obind]. reflexivity.
+Qed.
+
+(* the accessors read back what NewPointer packed (limits of pointer.go: offset < 2^35, length < 2^28) *)
+Lemma gap_lor_lt (a b : N) : (a < 2^64)%N -> (b < 2^64)%N -> (N.lor a b < 2^64)%N.
+Proof.
+  intros Ha Hb. destruct (N.eq_dec (N.lor a b) 0) as [E|E]; [rewrite E; reflexivity|].
+  apply N.log2_lt_pow2; [lia|]. rewrite N.log2_lor. apply N.max_lub_lt.
+  - destruct (N.eq_dec a 0) as [->|Hz]; [reflexivity|]. apply N.log2_lt_pow2; lia.
+  - destruct (N.eq_dec b 0) as [->|Hz]; [reflexivity|]. apply N.log2_lt_pow2; lia.
+Qed.
+
+Lemma gap_new_pointer_lt o l n : (Bits.new_pointer o l n < 2^64)%N.
+Proof.
+  unfold Bits.new_pointer, Bits.u64.
+  assert (H : (N.lor (N.shiftl o GenConsts.c_ptr_new_shift) l mod 2^64 < 2^64)%N) by (apply N.mod_lt; discriminate).
+  destruct n; [|exact H]. apply gap_lor_lt; [exact H|reflexivity].
+Qed.
+
+Lemma gap_pointer_roundtrip (o l : Z) (n : bool) :
+  0 <= o < 2^35 -> 0 <= l < 2^28 ->
+  gf_strings_Pointer_Offset (gf_strings_NewPointer o l n) = o /\
+  gf_strings_Pointer_Len (gf_strings_NewPointer o l n) = l /\
+  gf_strings_Pointer_IsNull (gf_strings_NewPointer o l n) = n.
+Proof.
+  intros Ho Hl. rewrite GenFuncsProofs.gf_strings_NewPointer_eq by lia.
+  pose proof (gap_new_pointer_lt (Z.to_N o) (Z.to_N l) n) as Hlt.
+  assert (Hr : 0 <= Z.of_N (Bits.new_pointer (Z.to_N o) (Z.to_N l) n) < 18446744073709551616) by lia.
+  rewrite GenFuncsProofs.gf_strings_Pointer_Offset_eq, GenFuncsProofs.gf_strings_Pointer_Len_eq,
+    GenFuncsProofs.gf_strings_Pointer_IsNull_eq by lia.
+  rewrite N2Z.id.
+  destruct (BitsProofs.pointer_roundtrip (Z.to_N o) (Z.to_N l) n) as (H1 & H2 & H3); [lia|lia|].
+  rewrite H1, H2, H3. repeat split; lia.
+Qed.
+
+Lemma gap_bytesAt_cons p ps D (i : nat) :
+  ga_scolumn_Column_bytesAt (ga_mk_scolumn_Column (p :: ps) D) (Z.of_nat (S i))
+  = ga_scolumn_Column_bytesAt (ga_mk_scolumn_Column ps D) (Z.of_nat i).
+Proof. unfold ga_scolumn_Column_bytesAt. cbn [ga_scolumn_Column_pointers ga_scolumn_Column_data]. now rewrite !gap_index. Qed.
+
+Lemma gap_slice_mid {T} (pre s rest : list T) :
+  ga_slice (pre ++ s ++ rest) (Z.of_nat (length pre)) (Z.of_nat (length pre) + Z.of_nat (length s)) = Ok s.
+Proof.
+  unfold ga_slice. rewrite !app_length.
+  destruct ((Z.of_nat (length pre) <? 0) || (Z.of_nat (length pre) + Z.of_nat (length s) <? Z.of_nat (length pre))
+            || (Z.of_nat (length pre + (length s + length rest)) <? Z.of_nat (length pre) + Z.of_nat (length s))) eqn:E; [lia|].
+  rewrite Nat2Z.id. replace (Z.to_nat (Z.of_nat (length pre) + Z.of_nat (length s) - Z.of_nat (length pre))) with (length s) by lia.
+  rewrite skipn_app, skipn_all, Nat.sub_diag. cbn [skipn app].
+  rewrite firstn_app, firstn_all, Nat.sub_diag. cbn [firstn]. now rewrite app_nil_r.
+Qed.
+
+(* the limits of pointer.go for a list of strings laid out from offset off *)
+Definition strs_small (l : list (option bytes)) (off : Z) : Prop :=
+  off + Z.of_nat (length (bytes_of l)) < 2^35 /\ Forall (fun o => Z.of_nat (length (str_bytes o)) < 2^28) l.
+
+Lemma rep_layout (l : list (option bytes)) : forall (pre rest : bytes),
+  strs_small l (Z.of_nat (length pre)) ->
+  forall i : nat,
+  ga_scolumn_Column_bytesAt (ga_mk_scolumn_Column (layout l (Z.of_nat (length pre))) (pre ++ bytes_of l ++ rest)) (Z.of_nat i)
+  = scol_cell (nth_error l i).
+Proof.
+  induction l as [|[s|] r IH]; intros pre rest [Hoff Hall] i.
+  - cbn [layout]. unfold ga_scolumn_Column_bytesAt. cbn [ga_scolumn_Column_pointers]. rewrite gap_index.
+    destruct i; reflexivity.
+  - inversion Hall as [|? ? Hs Hr]; subst. cbn [str_bytes] in Hs.
+    unfold bytes_of in *. cbn [map concat str_bytes] in *. rewrite app_length in Hoff.
+    cbn [layout]. destruct i as [|i].
+    + unfold ga_scolumn_Column_bytesAt. cbn [ga_scolumn_Column_pointers ga_scolumn_Column_data].
+      change (Z.of_nat 0) with 0. cbn [ga_index Z.ltb Z.compare idx nth_error Z.to_nat of_option obind].
+      destruct (gap_pointer_roundtrip (Z.of_nat (length pre)) (Z.of_nat (length s)) false) as (H1 & H2 & H3); [lia|lia|].
+      rewrite H1, H2, H3. rewrite <- app_assoc. rewrite gap_slice_mid. reflexivity.
+    + rewrite gap_bytesAt_cons. cbn [nth_error].
+      replace (Z.of_nat (length pre) + Z.of_nat (length s)) with (Z.of_nat (length (pre ++ s))) by (rewrite app_length; lia).
+      replace (pre ++ (s ++ concat (map str_bytes r)) ++ rest) with ((pre ++ s) ++ concat (map str_bytes r) ++ rest)
+        by (now rewrite <- !app_assoc).
+      apply (IH (pre ++ s) rest). split; [rewrite app_length; unfold bytes_of; lia|exact Hr].
+  - inversion Hall as [|? ? Hs Hr]; subst.
+    unfold bytes_of in *. cbn [map concat str_bytes app] in *.
+    cbn [layout]. destruct i as [|i].
+    + unfold ga_scolumn_Column_bytesAt. cbn [ga_scolumn_Column_pointers ga_scolumn_Column_data].
+      change (Z.of_nat 0) with 0. cbn [ga_index Z.ltb Z.compare idx nth_error Z.to_nat of_option obind].
+      destruct (gap_pointer_roundtrip (Z.of_nat (length pre)) 0 true) as (H1 & H2 & H3); [lia|lia|].
+      rewrite H3. reflexivity.
+    + rewrite gap_bytesAt_cons. cbn [nth_error]. apply (IH pre rest). split; [unfold bytes_of; lia|exact Hr].
+Qed.
+
+(* scolumn.New(strs) represents strs (within the limits of pointer.go) *)
+Lemma rep_scol_New (strs : list (option bytes)) :
+  strs_small strs 0 -> rep_scol (ga_mk_scolumn_Column (layout strs 0) (bytes_of strs)) strs.
+Proof.
+  intros H i. pose proof (rep_layout strs [] [] H i) as R. cbn [length Z.of_nat app] in R.
+  rewrite app_nil_r in R. exact R.
+Qed.
+
+(* ------------------------------------------------------------------ Grouper.Aggregate for ANY column level that
+   agrees with the model on the columns of the grouper (composition) *)
+
+Lemma lookup_from_in name (cs : list (bytes * coldata)) : forall k acc p c,
+  lookup_from name cs k acc = Some (p, c) -> In c (map snd cs) \/ acc = Some (p, c).
+Proof.
+  induction cs as [|[n c0] cs IH]; intros k acc p c H; cbn [lookup_from map snd] in *.
+  - now right.
+  - destruct (IH _ _ _ _ H) as [Hin|Hacc]; [left; now right|].
+    destruct (bytes_eqb n name); [inversion Hacc; subst; left; now left|now right].
+Qed.
+
+Section Compose.
+  Variable ft : float_table.
+  Variable g : grouper.
+  Variable colS : coldata -> list Z -> outcome (option coldata).
+  Variable colA : coldata -> list (list Z) -> aggfn -> outcome (option coldata * option unit).
+  Hypothesis HS : forall c firsts, In c (map snd (gcols g)) -> colS c (ints firsts) = omap1 Some (col_subset c firsts).
+
+  Lemma ga_Aggregate_loop2_gen (firsts : list nat) (keys : list bytes) : forall acc,
+    ga_Grouper_Aggregate_loop2 colS keys (Z.of_nat (length acc)) (emb_grouper g) (ints firsts)
+      (emb_map acc) (emb_cols acc)
+    = omap1 (fun kc => (emb_map (acc ++ kc), emb_cols (acc ++ kc))) (omap (key_col g firsts) keys).
+  Proof.
+    induction keys as [|n keys IH]; intro acc; cbn [ga_Grouper_Aggregate_loop2 omap omap1].
+    - now rewrite app_nil_r.
+    - cbn [emb_grouper ga_Grouper_columnsByName]. rewrite gap_map_get. unfold key_col at 1.
+      rewrite lookup_col_gframe.
+      destruct (lookup_from n (gcols g) 0 None) as [[p c]|] eqn:El; cbn [fst option_map of_option obind snd];
+        [|reflexivity].
+      ncsimpl. cbn [ga_deref obind]. rewrite HS.
+      2:{ destruct (lookup_from_in _ _ _ _ _ _ El) as [H|H]; [exact H|discriminate]. }
+      destruct (col_subset c firsts) as [s| |]; cbn [omap1 obind]; [|reflexivity|reflexivity].
+      ncsimpl. rewrite emb_map_snoc, emb_cols_snoc, gap_succ.
+      replace (S (length acc)) with (length (acc ++ [(n, s)])) by (rewrite app_length; cbn; lia).
+      rewrite IH. destruct (omap (key_col g firsts) keys); cbn [omap1 obind]; [|reflexivity|reflexivity].
+      now rewrite <- app_assoc.
+  Qed.
+
+  Lemma ga_Aggregate_loop4_gen (aggs : list aggregation) :
+    Z.of_nat (length (gindices g)) < 4294967296 ->
+    (forall c a, In c (map snd (gcols g)) -> In a aggs -> is_count (agfn a) = false ->
+       colA c (map ints (gindices g)) (agfn a) = agg_pair (col_aggregate ft c (gindices g) (agfn a))) ->
+    forall acc err,
+    ga_Grouper_Aggregate_loop4 m_new_error m_propagate m_unknownCol m_fn_eq_string colA m_icolumn_New
+      (map emb_agg aggs) (emb_grouper g) (emb_map acc) (emb_cols acc) err
+    = agg_result g (ofold (agg_step ft g) aggs acc).
+  Proof.
+    intro Hn. induction aggs as [|a aggs IH]; intros HA acc err; cbn [map ga_Grouper_Aggregate_loop4].
+    - rewrite ofold_nil. cbn [agg_result emb_grouper ga_Grouper_indices]. rewrite map_length.
+      unfold ga_u32. rewrite Z.mod_small by lia. rewrite gc_NewAscending_small by lia. reflexivity.
+    - assert (HA' : forall c a0, In c (map snd (gcols g)) -> In a0 aggs -> is_count (agfn a0) = false ->
+                colA c (map ints (gindices g)) (agfn a0) = agg_pair (col_aggregate ft c (gindices g) (agfn a0))).
+      { intros c a0 Hc Ha0. apply HA; [exact Hc|now right]. }
+      rewrite ofold_cons. unfold agg_step at 1.
+      cbn [emb_grouper ga_Grouper_columnsByName ga_Grouper_indices emb_agg ga_Aggregation_Column ga_Aggregation_As ga_Aggregation_Fn].
+      rewrite gap_map_get. rewrite lookup_col_gframe.
+      destruct (lookup_from (acol a) (gcols g) 0 None) as [[p c]|] eqn:El; cbn [option_map negb snd]; [|reflexivity].
+      cbn [obind].
+      assert (Hname : (if negb (bytes_eqb (aas a) (@nil N)) then Ok (aas a) else Ok (acol a)) = Ok (agg_name a)).
+      { rewrite <- gap_agg_name. destruct (negb (bytes_eqb (aas a) [])); reflexivity. }
+      rewrite Hname. cbn [obind].
+      pose proof (gap_map_has acc (agg_name a)) as Hhas.
+      destruct (ga_map_get ga_namedColumn_zero (emb_map acc) (agg_name a)) as [t8 t9]. cbn [snd] in Hhas. subst t9.
+      destruct (name_in (agg_name a) acc); [reflexivity|].
+      rewrite gap_is_count. unfold agg_column.
+      ncsimpl. rewrite emb_cols_length.
+      destruct (is_count (agfn a)) eqn:Ecnt.
+      + rewrite map_length, gap_make. cbn [obind]. rewrite ga_Aggregate_counts. cbn [obind].
+        ncsimpl. unfold m_icolumn_New. rewrite emb_map_snoc, emb_cols_snoc. apply (IH HA').
+      + cbn [ga_deref obind]. rewrite (HA c a).
+        2:{ destruct (lookup_from_in _ _ _ _ _ _ El) as [H|H]; [exact H|discriminate]. }
+        2:{ now left. }
+        2:{ exact Ecnt. }
+        destruct (col_aggregate ft c (gindices g) (agfn a)) as [r| |]; cbn [agg_pair obind ga_isnil negb]; [|reflexivity|reflexivity].
+        ncsimpl. rewrite emb_map_snoc, emb_cols_snoc. apply (IH HA').
+  Qed.
+
+  Lemma ga_Grouper_Aggregate_gen (aggs : list aggregation) :
+    Z.of_nat (length (gindices g)) < 4294967296 ->
+    (forall c a, In c (map snd (gcols g)) -> In a aggs -> is_count (agfn a) = false ->
+       colA c (map ints (gindices g)) (agfn a) = agg_pair (col_aggregate ft c (gindices g) (agfn a))) ->
+    ga_Grouper_Aggregate m_new_error m_propagate m_unknownCol m_fn_eq_string colS colA
+      m_icolumn_New (emb_grouper g) (map emb_agg aggs)
+    = omap1 emb_frame (aggregate ft g aggs).
+  Proof.
+    intros Hn HA. unfold ga_Grouper_Aggregate, aggregate.
+    cbn [emb_grouper ga_Grouper_Err ga_Grouper_indices ga_Grouper_groupedColumns]. rewrite emb_err_nil.
+    destruct (gerr g); [reflexivity|].
+    rewrite map_length, gap_make. cbn [obind]. rewrite ga_Aggregate_firsts, obind_omap1.
+    destruct (omap (fun ix => idx ix 0%nat) (gindices g)) as [firsts| |]; cbn [obind omap1]; [|reflexivity|reflexivity].
+    rewrite gap_make0 by lia. cbn [obind].
+    pose proof (ga_Aggregate_loop2_gen firsts (gkeys g) []) as H2. cbn [length Z.of_nat app] in H2.
+    change (emb_map []) with (@nil (bytes * NC)) in H2. change (emb_cols []) with (@nil NC) in H2.
+    fold (emb_grouper g). rewrite H2. clear H2.
+    change (fun n => do c <- of_option (lookup_col (gframe g) n); do s <- col_subset c firsts; Ok (n, s))
+      with (key_col g firsts).
+    destruct (omap (key_col g firsts) (gkeys g)) as [keycols| |]; cbn [omap1 obind]; [|reflexivity|reflexivity].
+    rewrite (ga_Aggregate_loop4_gen aggs Hn HA).
+    destruct (ofold (agg_step ft g) aggs keycols); reflexivity.
+  Qed.
+End Compose.
+
+(* ------------------------------------------------------------------ stringSlice (the []*string a user function gets) *)
+
+Lemma ga_stringAt_bytesAt c i : ga_scolumn_Column_stringAt c i = ga_scolumn_Column_bytesAt c i.
+Proof. reflexivity. Qed.
+
+Definition str_ptr (x : bytes * bool) : option bytes := if snd x then None else Some (fst x).
+
+Lemma ga_s_stringSlice_loop_fill (c : ga_scolumn_Column) (l : list Z) : forall k res,
+  ga_scolumn_Column_stringSlice_loop1 l k c res
+  = gap_fill (fun ix => omap1 str_ptr (ga_scolumn_Column_stringAt c ix)) l k res.
+Proof.
+  induction l as [|x l IH]; intros k res; cbn [ga_scolumn_Column_stringSlice_loop1 gap_fill]; [reflexivity|].
+  destruct (ga_scolumn_Column_stringAt c x) as [[s [|]]| |]; cbn [omap1 obind str_ptr fst snd]; try reflexivity.
+  - destruct (ga_update res k None); cbn [obind]; [apply IH|reflexivity|reflexivity].
+  - destruct (ga_update res k (Some s)); cbn [obind]; [apply IH|reflexivity|reflexivity].
+Qed.
+
+(* every element is written: nil for a null row, a pointer to the string otherwise — the cells of the model *)
+Lemma ga_s_stringSlice_eq (c : ga_scolumn_Column) (d : list (option bytes)) (g : list nat) :
+  rep_scol c d -> ga_scolumn_Column_stringSlice c (ints g) = omap (idx d) g.
+Proof.
+  intro Hrep. unfold ga_scolumn_Column_stringSlice. unfold ints at 1 2. rewrite map_length, gap_make. cbn [obind].
+  rewrite ga_s_stringSlice_loop_fill. fold (ints g). rewrite <- (map_length Z.of_nat g) at 1. fold (ints g).
+  rewrite gap_fill_all. unfold ints. rewrite omap_map.
+  rewrite (omap_ext _ (idx d) g); [destruct (omap (idx d) g); reflexivity|].
+  intro p. rewrite ga_stringAt_bytesAt, Hrep. unfold idx. destruct (nth_error d p) as [[s|]|]; reflexivity.
+Qed.
+
+Lemma ga_e_stringSlice_loop_eq (d : list N) values strict (l : list nat) : forall res,
+  omap1 snd (ga_ecolumn_Column_stringSlice_loop1 (ints l) (emb_ecol d values strict) res)
+  = omap1 (app res) (omap (fun p => do r <- idx d p; enum_string values r) l).
+Proof.
+  induction l as [|p l IH]; intro res; cbn [ints map ga_ecolumn_Column_stringSlice_loop1 omap omap1 snd].
+  - now rewrite app_nil_r.
+  - cbn [emb_ecol ga_ecolumn_Column_data ga_ecolumn_Column_values]. rewrite gap_index, idx_map.
+    destruct (idx d p) as [r| |]; cbn [omap1 obind]; [|reflexivity|reflexivity].
+    rewrite gap_enum_isnull. unfold enum_string. destruct (enum_is_null r); cbn [obind].
+    + fold (ints l). fold (emb_ecol d values strict). rewrite IH.
+      destruct (omap _ l); cbn [omap1 obind]; [|reflexivity|reflexivity]. now rewrite <- app_assoc.
+    + replace (Z.of_N r) with (Z.of_nat (N.to_nat r)) by lia. rewrite gap_index.
+      destruct (idx values (N.to_nat r)) as [s| |]; cbn [obind]; [|reflexivity|reflexivity].
+      fold (ints l). fold (emb_ecol d values strict). rewrite IH.
+      destruct (omap _ l); cbn [omap1 obind]; [|reflexivity|reflexivity]. now rewrite <- app_assoc.
+Qed.
+
+Lemma ga_e_stringSlice_eq (d : list N) values strict (g : list nat) :
+  ga_ecolumn_Column_stringSlice (emb_ecol d values strict) (ints g)
+  = omap (fun p => do r <- idx d p; enum_string values r) g.
+Proof.
+  unfold ga_ecolumn_Column_stringSlice. rewrite gap_make0 by lia. cbn [obind].
+  pose proof (ga_e_stringSlice_loop_eq d values strict g []) as H.
+  destruct (ga_ecolumn_Column_stringSlice_loop1 (ints g) (emb_ecol d values strict) []) as [[c r]| |];
+    cbn [omap1 snd obind] in *; destruct (omap _ g); cbn [omap1 app] in H; congruence.
+Qed.
+
+(* ------------------------------------------------------------------ the column level built from TRANSLATED functions *)
+
+(* an ecolumn.Column seen as a model column *)
+Definition abs_ecol (c : ga_ecolumn_Column) : coldata :=
+  ECol (map Z.to_N (ga_ecolumn_Column_data c)) (ga_ecolumn_Column_values c) (ga_ecolumn_Column_strict c).
+
+Lemma abs_emb_ecol d values strict : abs_ecol (emb_ecol d values strict) = ECol d values strict.
+Proof.
+  unfold abs_ecol, emb_ecol. cbn [ga_ecolumn_Column_data ga_ecolumn_Column_values ga_ecolumn_Column_strict].
+  rewrite map_map. f_equal. rewrite <- (map_id d) at 2. apply map_ext. intro; apply N2Z.id.
+Qed.
+
+Lemma ga_ecolumn_Subset_eq (d : list N) values strict (ix : list nat) :
+  ga_ecolumn_Column_Subset abs_ecol (emb_ecol d values strict) (ints ix) = m_col_Subset (ECol d values strict) (ints ix).
+Proof.
+  unfold ga_ecolumn_Column_Subset. rewrite ga_ecolumn_subset_eq, m_col_Subset_ints. cbn [col_subset].
+  destruct (omap (idx d) ix); cbn [omap1 obind]; [|reflexivity|reflexivity]. now rewrite abs_emb_ecol.
+Qed.
+
+(* col.Subset / col.Aggregate dispatched on the column type to the translated functions of the column packages;
+   the string column (and the Aggregate of the enum column) stay on the model's functions *)
+Definition tr_col_Subset (fz : N) (c : coldata) (ix : list Z) : outcome (option coldata) :=
+  match c with
+  | ICol d => ga_icolumn_Column_Subset ICol (ga_mk_icolumn_Column d) ix
+  | FCol d => ga_fcolumn_Column_Subset FCol fz (ga_mk_fcolumn_Column d) ix
+  | BCol d => ga_bcolumn_Column_Subset BCol (ga_mk_bcolumn_Column d) ix
+  | ECol d values strict => ga_ecolumn_Column_Subset abs_ecol (emb_ecol d values strict) ix
+  | SCol _ => m_col_Subset c ix
+  end.
+
+Definition tr_col_Aggregate (ft : float_table) (fzero : N) (fadd fdiv : N -> N -> N) (fofint : Z -> N)
+  (c : coldata) (ixs : list (list Z)) (fn : aggfn) : outcome (option coldata * option unit) :=
+  match c with
+  | ICol d => ga_icolumn_Column_Aggregate m_new_error m_fn_cases ICol m_fnName m_fn_text (ga_mk_icolumn_Column d) ixs fn
+  | FCol d => ga_fcolumn_Column_Aggregate m_new_error m_fn_cases_float FCol m_fnName fzero fadd fdiv Aggregate.f_max
+                Aggregate.f_min fofint m_fn_text (ga_mk_fcolumn_Column d) ixs fn
+  | BCol d => ga_bcolumn_Column_Aggregate m_new_error m_fn_cases_bool BCol m_fnName m_fn_text (ga_mk_bcolumn_Column d) ixs fn
+  | _ => m_col_Aggregate ft c ixs fn
+  end.
+
+Lemma tr_col_Subset_eq fz c firsts : tr_col_Subset fz c (ints firsts) = omap1 Some (col_subset c firsts).
+Proof.
+  rewrite <- m_col_Subset_ints. destruct c as [d|d|d|d|d values strict]; cbn [tr_col_Subset].
+  - apply ga_icolumn_Subset_eq.
+  - apply ga_fcolumn_Subset_eq.
+  - apply ga_bcolumn_Subset_eq.
+  - reflexivity.
+  - apply ga_ecolumn_Subset_eq.
+Qed.
+
+(* the float premise of the composition: for every float column of the grouper and every "sum" / "avg"
+   aggregation, the oracle table holds the results of the float arithmetic the code is instantiated with *)
+Definition float_oracle_ok (ft : float_table) (fzero : N) (fadd fdiv : N -> N -> N) (fofint : Z -> N)
+  (g : grouper) (aggs : list aggregation) : Prop :=
+  forall d a, In (FCol d) (map snd (gcols g)) -> In a aggs ->
+    (agfn a = GName gofn_sum -> oracle_agrees ft gofn_sum (f_sum_spec fzero fadd) d (gindices g)) /\
+    (agfn a = GName gofn_avg -> oracle_agrees ft gofn_avg (f_avg_spec fzero fadd fdiv fofint) d (gindices g)).
+
+Lemma ga_Grouper_Aggregate_composed (ft : float_table) (fzero : N) (fadd fdiv : N -> N -> N) (fofint : Z -> N)
+  (g : grouper) (aggs : list aggregation) :
+  Z.of_nat (length (gindices g)) < 4294967296 ->
+  float_oracle_ok ft fzero fadd fdiv fofint g aggs ->
+  ga_Grouper_Aggregate m_new_error m_propagate m_unknownCol m_fn_eq_string (tr_col_Subset fzero)
+    (tr_col_Aggregate ft fzero fadd fdiv fofint) m_icolumn_New (emb_grouper g) (map emb_agg aggs)
+  = omap1 emb_frame (aggregate ft g aggs).
+Proof.
+  intros Hn Hf. apply (ga_Grouper_Aggregate_gen ft g); [|exact Hn|].
+  - intros c firsts _. apply tr_col_Subset_eq.
+  - intros c a Hc Ha _. unfold agg_pair. rewrite <- m_col_Aggregate_ints.
+    destruct c as [d|d|d|d|d values strict]; cbn [tr_col_Aggregate]; try reflexivity.
+    + apply ga_icolumn_Aggregate_eq.
+    + destruct (Hf d a Hc Ha) as [Hs Hav]. apply ga_fcolumn_Aggregate_eq; assumption.
+    + apply ga_bcolumn_Aggregate_eq.
+Qed.
